@@ -375,6 +375,47 @@ def check_cmp(mod, R, cname, name, fn):
 
 
 def run(ctx, report):
+    """Two deciders: (1) every operator of every width class evaluated from the source against the mathematical definition on the boundary domain the class
+    declarations span (sa/modinteval.py); (2) template conformance of the method bodies (a proof for all values when every method matches a template).
+    A template that does not match is reported only when the evaluation has a witness: a re-arranged but correct method (helper extracted, branches
+    merged) is decided by (1) alone, and the evidence level of that run is `other` instead of `proof`."""
+    from .. import modinteval
+    mod = ctx.mod('modint')
+    res = modinteval.evaluate(ctx)
+    ER = res['result']
+    RE = report.rule('C14.eval', 'constructors, + - * & | ^ << >> % **, unary - ~ abs, the six comparisons, int() and hash of all 11 width classes, evaluated from the source on boundary values x '
+                     'class pairs x plain integers x shift counts around and far beyond each width: exact result reduced into the result type, wider type wins, plain integers keep the type, '
+                     'reflected forms agree, equal values hash equally, no integer of count-many bits is built', floor=30)
+    for group in sorted(ER.count):
+        bads = sorted((k, m) for (g, k), m in ER.bad.items() if g == group)
+        if not bads:
+            RE.ok('eval[%s]' % group, sample='%s: %d evaluations agree with the definition' % (group, ER.count[group]))
+        for kind, msg in bads:
+            RE.violation('eval[%s]:%s' % (group, kind), 'eval:%s:%s' % (group, kind), msg, where(mod, mod.tree))
+    report.analysed['evaluations'] = sum(ER.count.values())
+    clean = not ER.bad
+    try:
+        run_templates(ctx, report)
+    except AnalysisError as e:
+        if not clean:
+            raise
+        report.level = 'other'
+        RE.note('the template analysis stopped (%s): this run is decided by the evaluation alone' % e)
+        for r in report.rules:
+            if r is not RE:
+                r.floor = 0
+                r.findings = []
+        return
+    if clean:
+        for r in report.rules:
+            if r is not RE and r.findings:
+                for f in r.findings:
+                    RE.note('template %s %s not matched (%s); no evaluated witness: decided by the evaluation' % (f.rule, f.key, f.what[:120]))
+                r.findings = []
+                report.level = 'other'
+
+
+def run_templates(ctx, report):
     mod = ctx.mod('modint')
     report.level = 'proof'
     report.explanation = (
